@@ -502,6 +502,77 @@ def run_offset_refusal(ctx):
                 ctx.violation('resize_array', '%s;%s;offset-out-of-range' % (mode, direction), 'wrong-exception:' + type(e).__name__, shp=shp, newshp=newshp, offs=offs)
 
 
+def run_tiny_pad_const(ctx):
+    """Constant padding with a constant that is nonzero but tiny (5e-9, -1e-12): the operator is affine for every nonzero
+    constant - not flagged linear, values those of numpy.pad with that constant, and an adjoint is either refused or satisfies
+    the identity for the *linear part* only (never offered for the affine map as if it were linear)."""
+    rng = ctx.rng('tiny-pad-const')
+    idx = 80000
+    for nd, const in itertools.product((1, 2), (5e-9, -1e-12, 1e-300, 0.0)):
+        idx += 1
+        if not ctx.mine(idx):
+            continue
+        shape = (4, 3)[:nd]
+        sp = odl.uniform_discr([0.0] * nd, [1.0, 2.0][:nd], shape)
+        rshape = tuple(k + 3 for k in shape)
+        cfg = 'constant;pad_const=%s' % ('0' if const == 0 else 'tiny-nonzero')
+        ctx.case('tiny-pad-const;%dd' % nd, const)
+        ctx.ev('resizing-operator')
+        try:
+            op = odl.ResizingOperator(sp, ran_shp=rshape, pad_mode='constant', pad_const=const)
+            if bool(op.is_linear) != (const == 0):
+                ctx.violation('ResizingOperator', cfg, 'is_linear', got=bool(op.is_linear), pad_const=const)
+            xa = rng.normal(size=shape)
+            offs = tuple(int(o) for o in op.offset)
+            padw = [(o, r - k - o) for o, r, k in zip(offs, rshape, shape)]
+            ref = np.pad(xa, padw, mode='constant', constant_values=const)
+            if not np.array_equal(np.asarray(op(sp.element(xa))), ref):
+                ctx.violation('ResizingOperator', cfg, 'value!=numpy.pad')
+            if const != 0:
+                try:
+                    A = op.adjoint
+                except Exception:
+                    A = None          # refusing is right for an affine operator
+                if A is not None:
+                    x, y = sp.element(xa), util.rand_element(op.range, rng)
+                    lhs, rhs = op(x).inner(y), x.inner(A(y))
+                    if abs(lhs - rhs) > 1e-13 * max(1.0, abs(lhs)):
+                        ctx.violation('ResizingOperator', cfg, 'adjoint-offered-for-an-affine-operator-and-identity-fails', gap=float(abs(lhs - rhs)))
+        except Exception as e:
+            ctx.violation('ResizingOperator', cfg, 'raises:' + type(e).__name__, message=str(e)[:200])
+
+
+def run_adjoint_wider_out(ctx):
+    """resize_array(..., direction='adjoint', out=<array of a wider type than the input>): documented as legal; the folding of
+    the padded part is accumulated in the type of ``out`` - equal to the transpose applied in that type."""
+    rng = ctx.rng('adjoint-wider-out')
+    idx = 90000
+    for (idt, odt), mode, (shp, newshp) in itertools.product([('float32', 'float64'), ('int8', 'int64'), ('float64', 'float64'), ('float32', 'complex128')],
+                                                              ('periodic', 'symmetric', 'order0', 'order1', 'constant'), [((9,), (6,)), ((7, 8), (5, 6))]):
+        idx += 1
+        if not ctx.mine(idx):
+            continue
+        ctx.ev('exact-transpose')
+        ctx.case('adjoint-wider-out;%s->%s;%s' % (idt, odt, mode), shp)
+        cfg = '%s;adjoint;out-dtype-wider:%s->%s' % (mode, idt, odt) if idt != odt else '%s;adjoint;out-given' % mode
+        try:
+            if np.dtype(idt).kind == 'i':
+                src = rng.integers(60, 120, size=shp).astype(idt)
+            else:
+                src = (rng.normal(size=shp) * 1000 + 0.1).astype(idt)
+            out = np.full(newshp, 77, dtype=odt)
+            r = resize_array(src, newshp, None, mode, 0, direction='adjoint', out=out)
+            ref = resize_array(src.astype(odt), newshp, None, mode, 0, direction='adjoint')
+            if r is not out:
+                ctx.violation('resize_array', cfg, 'not-out')
+            if not np.array_equal(out, ref):
+                ctx.violation('resize_array', cfg, 'value!=transpose-applied-in-the-type-of-out', maxdiff=float(np.abs(out.astype(complex) - ref.astype(complex)).max()))
+            if not np.array_equal(src, src.copy()):
+                pass
+        except Exception as e:
+            ctx.violation('resize_array', cfg, 'raises:' + type(e).__name__, message=str(e)[:200])
+
+
 def run_foreign_range(ctx):
     """"...with unchanged cell sizes": a range handed in explicitly whose cells differ from the domain's in *any* axis -
     resized or not - is no resizing of the domain.  It must be refused (ValueError), never silently accepted: the operator
@@ -605,6 +676,8 @@ def run(ctx):
     run_range_geometry(ctx)
     run_explicit_range(ctx)
     run_offset_refusal(ctx)
+    run_tiny_pad_const(ctx)
+    run_adjoint_wider_out(ctx)
     run_foreign_range(ctx)
     run_dtype_change(ctx)
     cov.disarm()
